@@ -48,6 +48,15 @@ CLAIMED = {
             "alphabet go through the real code; TLC evaluates alternation, no repeated signature, duration, sounding-set "
             "preservation for paired inputs, signatures in force and idempotence on each observation.",
             "Bounded input length; sounding sets use nesting-count semantics.", "6 (C07)"),
+    "C05": ("Quantise", "TLC model check of Quantise.tla (message-at-a-time open/previous-note tables, all tie-breakings) + "
+            "its initial states and seeded random inputs run through the real quantise + TLC trace validation",
+            "TLC explores the reference system (per-message QOn/QOff/QOther, Sweep, Sort; ties between equally near grid "
+            "positions left nondeterministic so every tie-breaking rule is covered) on every well-formed input of <=2 notes "
+            "over 2 channels x 2 pitches x 6 step lists (about 1e6 states) and checks the acceptor at termination; a defect "
+            "switch shows the invariant bites. Those inputs and random ones (<=12 notes, 3 channels, 11 step lists) go "
+            "through the real code; TLC evaluates grid, displacement (injective matching), pairing, overlap, non-note "
+            "retention and the survival clause on each observation.",
+            "Bounded scope; the displacement clause is decided by an earliest-feasible greedy matching per event class.", "6 (C05)"),
 }
 PENDING = {}
 props = [json.loads(l) for l in open(V / "properties.jsonl")]
